@@ -37,6 +37,7 @@ type Contract struct {
 	LoopDec    map[int]*Clause
 	LoopMod    map[int]*Clause
 	CallAssumes []*Clause // assume at call <callee>#<k>: E because "..."
+	CallAsserts []*Clause // assert at call <callee>#<k>: E   (obligation before the call)
 	Preserves  *Clause // locations (usually fields(T)) left unchanged even under modifies *
 	Callbacks  map[string]*Contract // contracts of func-typed parameters
 	Modifies   *Clause // nil => default: nothing (for verified functions), see gen
@@ -73,6 +74,7 @@ type ImplDecl struct {
 
 type SpecFile struct {
 	Path      string
+	Axioms    []*Clause
 	Impls     []*ImplDecl
 	Contracts []*Contract
 	Defines   []*Define
@@ -199,6 +201,13 @@ func ParseSpecFile(path string, pkgName string) (*SpecFile, error) {
 				in = pkgName + "." + in
 			}
 			sf.Impls = append(sf.Impls, &ImplDecl{Iface: in, Impl: f[1], Pkg: pkgName, File: path, Line: ln})
+		case "axiom":
+			e, err := ParseExpr(rest)
+			if err != nil {
+				errs = append(errs, fmt.Sprintf("%s:%d: axiom: %v", path, ln, err))
+				continue
+			}
+			sf.Axioms = append(sf.Axioms, &Clause{Kind: "axiom", Text: rest, E: e, File: path, Line: ln})
 		case "ghostfun":
 			u, err := parseGhostFun(rest)
 			if err != nil {
@@ -219,7 +228,7 @@ func ParseSpecFile(path string, pkgName string) (*SpecFile, error) {
 			}
 			k, r3 := splitWord(r2)
 			pend = &pending{kind: "loop-" + k, loop: idx, text: r3, line: ln}
-		case "requires", "ensures", "assume", "modifies", "panics_if", "decreases", "witness", "preserves":
+		case "requires", "ensures", "assume", "modifies", "panics_if", "decreases", "witness", "preserves", "assert":
 			pend = &pending{kind: word, text: rest, line: ln}
 		case "callback":
 			// callback <param> <clause...>: contract of a func-typed parameter
@@ -318,6 +327,31 @@ func addClause(c *Contract, kind string, loop int, text, file string, line int) 
 	}
 	cl := &Clause{Kind: kind, Loop: loop, Text: text, File: file, Line: line}
 	switch kind {
+	case "assert":
+		t := strings.TrimSpace(text)
+		if !strings.HasPrefix(t, "at call ") {
+			return fmt.Errorf("assert at call <callee>#<k>: <expr>")
+		}
+		rest := strings.TrimPrefix(t, "at call ")
+		i := strings.Index(rest, ":")
+		if i < 0 {
+			return fmt.Errorf("assert at call <callee>#<k>: <expr>")
+		}
+		site := strings.TrimSpace(rest[:i])
+		j := strings.LastIndex(site, "#")
+		if j < 0 {
+			return fmt.Errorf("assert at call: missing #<ordinal> in %q", site)
+		}
+		cl.Callee = site[:j]
+		fmt.Sscanf(site[j+1:], "%d", &cl.CallOrd)
+		e, err := ParseExpr(rest[i+1:])
+		if err != nil {
+			return err
+		}
+		cl.E = e
+		cl.Text = "at call " + site + ": " + strings.TrimSpace(rest[i+1:])
+		c.CallAsserts = append(c.CallAsserts, cl)
+		return nil
 	case "preserves":
 		for _, part := range splitTop(strings.TrimSpace(text), ',') {
 			e, err := parseModEntry(part)
